@@ -125,8 +125,41 @@ def _digest(obj) -> str:
     return hashlib.blake2b(json.dumps(obj, sort_keys=True, default=repr).encode(), digest_size=12).hexdigest()
 
 
+_CACHED_FUNCS = None
+
+
+def reset_library_caches():
+    """Workers are long-lived: a memoising wrapper (functools.cache / lru_cache) on a function of the library would carry state
+    from one execution into the next and make a replayed prefix diverge.  Every such cache of an httpcore module is cleared before
+    each execution, so whatever a cache does wrong shows *within* one execution, where the oracles can see it."""
+    global _CACHED_FUNCS
+    if _CACHED_FUNCS is None:
+        import sys as _sys
+        if "httpcore" not in _sys.modules:
+            return
+        found = []
+        for name, mod in list(_sys.modules.items()):
+            if mod is None or not (name == "httpcore" or name.startswith("httpcore.")):
+                continue
+            for obj in list(vars(mod).values()):
+                members = [obj]
+                if isinstance(obj, type) and getattr(obj, "__module__", "").startswith("httpcore"):
+                    members += list(vars(obj).values())
+                for m in members:
+                    m = getattr(m, "__func__", m)
+                    if callable(getattr(m, "cache_clear", None)) and not any(m is f for f in found):
+                        found.append(m)
+        _CACHED_FUNCS = found
+    for f in _CACHED_FUNCS:
+        try:
+            f.cache_clear()
+        except Exception:       # noqa
+            pass
+
+
 def run_once(spec, prefix, labels=None, want_fp=True, keep_trace=False, stop=None):
     """Run one execution; returns a compact, picklable dict."""
+    reset_library_caches()
     h = build_harness(spec)
     ch = Chooser(prefix, labels, want_fp=want_fp, horizon=getattr(h, "horizon", 100000), stop=stop)
     try:
